@@ -528,6 +528,10 @@ pub fn run(cfg: RunCfg) {
         "stores of 1638+-delta records (clean-up threshold), range at/above a held distance; every record's fate checked",
         large_strategy, check_large
     );
+    // the figures in quotes the node really issues (node's query handler, payments counted from verified
+    // uploads) need the node simulator of vh-node and run there as a child (built by harness/pre-C10.sh)
+    let exe = rep.cfg.root.join("harness/target/release/vh-node");
+    vh_core::run_child(&mut rep, &exe, "node-side issued quotes (vh-node child)");
     vh_core::fuzz_section!(rep, "capacity", case_strategy, check, "sec_store", "store", 6_000, 240, 8);
     rep.finish();
 }
